@@ -134,6 +134,44 @@ Proof. exact doc_tags_order_irrelevant. Qed.
 Theorem C06_tags_cfg_order_irrelevant : forall V cmp tags_of (r : node V) cfg cfg' v,
   Permutation cfg cfg' -> doc_tags V cmp tags_of cfg r v = doc_tags V cmp tags_of cfg' r v.
 Proof. exact doc_tags_cfg_order_irrelevant. Qed.
+(* 7. from the walk to the document's [paths] map (OpenApiSlots.v): gen_openapi
+   inserts each operation under (path string, method), a later one for an
+   occupied slot replacing the earlier.  For templates registration can produce
+   (what parse_template yields: [clean]) rendering a template as a path string
+   is injective and the walk is strictly sorted, so no slot is ever occupied
+   twice: the document holds exactly one operation per item of [doc_ops], in
+   that order — every published endpoint served at v keeps its own slot, none is
+   lost to a replacement. *)
+From DS Require Import OpenApiSlots.
+
+Theorem C06_parsed_templates_are_clean : forall path t, parse_template path = Ok t -> clean t.
+Proof. exact parse_template_clean. Qed.
+
+Theorem C06_path_rendering_injective : forall t1 t2, clean t1 -> clean t2 ->
+  doc_path (undoc t1) = doc_path (undoc t2) -> undoc t1 = undoc t2.
+Proof. exact doc_path_inj. Qed.
+
+Theorem C06_one_slot_per_operation : forall V cmp bot, total_order V cmp bot ->
+  forall (eps : list (decl V)) r v,
+  build V cmp eps = Ok r ->
+  (forall d, In d eps -> wf_range V cmp (e_versions (snd d))) ->
+  (forall d, In d eps -> clean (fst d)) ->
+  (forall x, In x (doc_ops V cmp r v) -> openapi_method (snd (fst x)) = true) ->
+  doc V cmp r v = DocOk (map (slot_of V) (doc_ops V cmp r v)).
+Proof. exact doc_slots_exact. Qed.
+
+Theorem C06_every_served_endpoint_has_its_slot : forall V cmp bot, total_order V cmp bot ->
+  forall (eps : list (decl V)) r v t e,
+  build V cmp eps = Ok r ->
+  (forall d, In d eps -> wf_range V cmp (e_versions (snd d))) ->
+  (forall d, In d eps -> clean (fst d)) ->
+  (forall x, In x (doc_ops V cmp r v) -> openapi_method (snd (fst x)) = true) ->
+  In (t, e) eps -> e_visible e = true -> vmatches V cmp (e_versions e) (Some v) = true ->
+  exists slots, doc V cmp r v = DocOk slots /\
+                In ((doc_path (undoc t), str_upper (e_method e)), e) slots /\
+                length slots = length (doc_ops V cmp r v).
+Proof. exact doc_slot_of_each. Qed.
+
 (* non-vacuity for the tag array: tags that differ only in letter case, a
    configured name that an endpoint also uses, a tag carried only by an
    unpublished endpoint (listed all the same: see the statement) and one carried
@@ -152,6 +190,10 @@ Example C06_tags_nonvacuous :
   end.
 Proof. vm_compute. repeat split. Qed.
 
+Print Assumptions C06_parsed_templates_are_clean.
+Print Assumptions C06_path_rendering_injective.
+Print Assumptions C06_one_slot_per_operation.
+Print Assumptions C06_every_served_endpoint_has_its_slot.
 Print Assumptions C06_tags_sorted.
 Print Assumptions C06_tags_exact.
 Print Assumptions C06_tags_order_irrelevant.
